@@ -182,11 +182,7 @@ template<class T, int D> struct Holder : Base<T> {
 		if(n == "sliceds") { return wrap<T>(v.sliced(a[0], a[1], a[2])); }
 		if(n == "strided") { return wrap<T>(v.strided(a[0])); }
 		if(n == "dropped") { return wrap<T>(v.dropped(a[0])); }
-		if(n == "taked") {
-			// at the pinned commit taked() does not compile for D > 1 (its only overload cannot convert
-			// its result to basic_const_array); exercised for D == 1 only
-			if constexpr(D == 1) { return wrap<T>(v.taked(a[0])); } else { throw unsupported("taked D>1"); }
-		}
+		if(n == "taked") { return wrap<T>(v.taked(a[0])); }
 		if(n == "rotated") { return wrap<T>(v.rotated()); }
 		if(n == "unrotated") { return wrap<T>(v.unrotated()); }
 		if(n == "transposed") {
